@@ -182,7 +182,10 @@ func (d *Device) handleABSEvent(ie *input.InputEvent) {
 		}
 	}
 
-	if d.ccLearning && !(value < -0.5 || value > 0.5) {
+	// learning mode thins out controller traffic only: an emulated key or action must still see the return to centre,
+	// otherwise its note keeps sounding (its action stays held) after the axis went back to rest
+	if d.ccLearning && !(value < -0.5 || value > 0.5) &&
+		(analog.MappingType == config.AnalogCC || analog.MappingType == config.AnalogPitchBend) {
 		return
 	}
 
